@@ -186,3 +186,26 @@ M("preserve-required-wording-c04", "C04", "S",
   (HT, "return zero, fmt.Errorf(\"query parameter '{{.ParameterName}}': is required\")", "return zero, fmt.Errorf(\"missing required query parameter '{{.ParameterName}}'\")"))
 M("preserve-missing-key-wording-c08", "C08", "S",
   (CT, "return fmt.Errorf(\"'{{ .JSONTag }}' key is missing\")", "return fmt.Errorf(\"required property '{{ .JSONTag }}' is absent\")"))
+
+# ------------------------------------------------------------------ round-2 rules: behaviour-preserving edits must stay silent
+M("c12-preserve-dir-loop-counter", "C12", "S",
+  ("goag.go", "\t\tcfgFile := filepath.Join(testpath, cfgFilename)\n",
+   "\t\tcfgFile := filepath.Join(testpath, cfgFilename)\n\t\tvar n int\n\t\tn++\n\t\t_ = n\n"))
+M("c12-dir-loop-carried-out", "C12", "V",
+  ("goag.go", "\t\ttestpath := filepath.Join(dir, d.Name())\n",
+   "\t\tout = filepath.Join(out, \"gen\")\n\t\ttestpath := filepath.Join(dir, d.Name())\n"))
+M("c06-preserve-layout-literal", "C06", "S",
+  ("generator/schema.go", "\t\t\tformat := \"time.RFC3339Nano\"\n", "\t\t\tformat := `\"2006-01-02T15:04:05.999999999Z07:00\"`\n"))
+M("c06-layout-millis", "C06", "V",
+  ("generator/schema.go", "\t\t\tformat := \"time.RFC3339Nano\"\n", "\t\t\tformat := `\"2006-01-02T15:04:05.000Z07:00\"`\n"))
+M("c09-preserve-layout-literal", "C09", "S",
+  ("generator/schema.go", "\t\t\tformat := \"time.RFC3339Nano\"\n", "\t\t\tformat := `\"2006-01-02T15:04:05.999999999Z07:00\"`\n"))
+M("c15-preserve-with-guard", "C15", "S",
+  ("generator/file_components.gotmpl", "    {{ if .SliceType.Items.Ref }}\n\t\t{{- if .SliceType.Items.Ref.Schema.IsCustom }}",
+   "    {{ if and .SliceType.Items.Ref .SliceType.Items.Ref.Schema }}\n\t\t{{- if .SliceType.Items.Ref.Schema.IsCustom }}"))
+M("c14-preserve-make-cap-plus", "C14", "S",
+  ("generator/types.gotmpl", "qv := make([]string, 0, len({{ .From }}))", "qv := make([]string, 0, len({{ .From }})+1)"))
+M("c14-make-from-atoi", "C14", "V",
+  ("generator/types.gotmpl", "qv := make([]string, 0, len({{ .From }}))", "qv := make([]string, 0, len({{ .From }})-1)"))
+M("c06-preserve-delete-first", "C06", "S",
+  ("generator/file_components.gotmpl", "\t\t\t\tdelete(m, \"{{ .JSONTag }}\")\n\t\t\t{{- if .Required }}", "\t\t\t\tdelete(m, \"{{ .JSONTag }}\")\n\t\t\t\t_ = raw\n\t\t\t{{- if .Required }}"))
